@@ -321,6 +321,22 @@ func (fx *FuncVC) evalRegion(env *Env, e Expr, c *Clause) (out []region) {
 			}
 		}
 	case *CallE:
+		if x.Fun == "fields" && len(x.Args) == 2 { // fields(T, f): field f of every object of type T (coarse frame)
+			tid, ok1 := x.Args[0].(*Ident)
+			fid, ok2 := x.Args[1].(*Ident)
+			if ok1 && ok2 {
+				if t := fx.eng.resolveType(env.pkg, tid.Name); t != nil {
+					if path, ok := fieldIndex(t, fid.Name); ok {
+						var steps []Step
+						for _, i := range path {
+							steps = append(steps, Step{Field: i})
+						}
+						prefix, _ := leafPathPrefix(t, steps)
+						return []region{{root: t, prefix: prefix, all: true}}
+					}
+				}
+			}
+		}
 		if x.Fun == "elems" { // elems(T): every element of every []T (coarse frame)
 			if id, ok := x.Args[0].(*Ident); ok {
 				t := fx.eng.resolveType(env.pkg, id.Name)
@@ -425,6 +441,9 @@ func (fx *FuncVC) inRegionsObj(name string, regions []region, r T) T {
 		}
 		if !covers {
 			continue
+		}
+		if rg.all {
+			return True
 		}
 		cs = append(cs, Eq(r, rg.ref))
 	}
